@@ -101,7 +101,7 @@ def body_batching(E, api, n, mode, b, base):
 
 # --------------------------------------------------------------------------
 # (b) shuffle: where it is given, its value, and the permutation it denotes
-def body_shuffle(E, api, n, where, val, mode, b, base, j1, j2, j3, i1, i2, i3):
+def body_shuffle(E, api, n, where, val, mode, b, base, j1, j2, j3, i1, i2, i3, fresh=False):
     api = concretize(api, 0, 3)
     n = concretize(n, 2, 4)
     if api == 3:
@@ -131,6 +131,8 @@ def body_shuffle(E, api, n, where, val, mode, b, base, j1, j2, j3, i1, i2, i3):
         sow(crop, api, n, **sk)
         for i in range(1, crop.num_batches + 1):
             cp.grow(i, crop=crop, verbosity=0)
+        if cbool(fresh):
+            crop = cp.Crop(name="t", parent_dir=env.parent)      # reaped by another process
         out = crop.reap()
         return same_nested(out, ref) and not env.exists(crop_dir(env))
 
@@ -162,9 +164,13 @@ def body_grow(E, B, per, how, repeat, base, j1, j2, j3, g1, g2, g3):
         sow(crop, 0, n)
         if crop.num_batches != B:
             raise HarnessError("unexpected batch count")
-        pool = basic.SubmitExecutor(None)
         if env.mode == "sym":
-            env._set(cp, "get_reusable_executor", lambda *a, **k: pool)
+            pool = basic.EagerFutureExecutor()
+        else:
+            from concurrent.futures import ThreadPoolExecutor
+
+            pool = ThreadPoolExecutor(2)
+        env._set(cp, "get_reusable_executor", lambda *a, **k: pool)
         if how == 2:
             crop.grow(tuple(groups[0]))
             crop.grow_missing()
@@ -176,16 +182,30 @@ def body_grow(E, B, per, how, repeat, base, j1, j2, j3, g1, g2, g3):
                     for i in g:
                         cp.grow(i, crop=crop, verbosity=0)
                 else:
-                    if env.mode == "sym":
-                        for i in g:
-                            cp.grow(i, crop=crop, verbosity=0, num_workers=2)
-                    else:
-                        crop.grow(tuple(g))
+                    for i in g:
+                        # within-batch parallelism: the result tuple must keep the sown order whatever the
+                        # completion order (real replay: a thread pool and a function whose first case is slowest)
+                        cp.grow(i, crop=crop, verbosity=0, num_workers=2,
+                                **({"fn": _slow_first(fn)} if env.mode == "real" else {}))
         r = concretize(repeat, 0, B)
         if r:
             cp.grow(r, crop=crop, verbosity=0)    # growing a batch twice changes nothing
         out = crop.reap()
         return same_nested(out, ref) and not env.exists(crop_dir(env))
+
+
+def _slow_first(fn):
+    import time
+
+    seen = []
+
+    def slow(**kw):
+        seen.append(1)
+        if len(seen) % 2 == 1:
+            time.sleep(0.05)
+        return fn(**kw)
+
+    return slow
 
 
 # --------------------------------------------------------------------------
@@ -278,16 +298,18 @@ CONDS = (
                  bounds="N=%d settings; %s [api=%d]" % (2 * n if api == 3 else n, _B, api))
        for api in range(4) for n in ((7, 8, 9, 10) if api != 3 else (4, 5))]
     + split_conds(_G, "shuffle", body_shuffle,
-                  "n:int where:int val:int mode:int b:int base:int j1:int j2:int j3:int i1:int i2:int i3:int",
+                  "n:int where:int val:int mode:int b:int base:int j1:int j2:int j3:int i1:int i2:int i3:int fresh:bool",
                   ["2 <= n <= 4 and 0 <= where <= 1 and 1 <= val <= 2 and 0 <= mode <= 2 and 1 <= b <= 2",
+                   "not fresh or (mode == 1 and b == 2)",
                    "0 <= j1 <= 1 and 0 <= j2 <= 2 and 0 <= j3 <= 3 and 0 <= i1 <= 1 and 0 <= i2 <= 2 and 0 <= i3 <= 3",
                    "n <= 3 or (mode == 1 and b == 2)"], "api", [0, 1, 2], timeout=400,
                   bounds="shuffle given to the constructor or to the sow call, True or int seed, every permutation "
-                         "of N<=4 settings (sower and reaper permutations tied only through equal (seed, length)); "
+                         "of N<=4 settings (sower and reaper permutations tied only through equal (seed, length)), reaped by "
+                         "the sowing object or by a fresh Crop; "
                          "all batching modes with b in 1..2 for N<=3, batchsize=2 for N=4; " + _API)
     + [make_cond(_G, "shuffle_api3", body_shuffle,
-                 "where:int val:int mode:int b:int base:int j1:int j2:int j3:int i1:int i2:int i3:int",
-                 ["0 <= where <= 1 and 1 <= val <= 2 and 1 <= mode <= 2 and b == 2",
+                 "where:int val:int mode:int b:int base:int j1:int j2:int j3:int i1:int i2:int i3:int fresh:bool",
+                 ["0 <= where <= 1 and 1 <= val <= 2 and 1 <= mode <= 2 and b == 2", "not fresh or mode == 1",
                   "0 <= j1 <= 1 and 0 <= j2 <= 2 and 0 <= j3 <= 3 and 0 <= i1 <= 1 and 0 <= i2 <= 2 and 0 <= i3 <= 3"],
                  fixed=dict(api=3, n=2), timeout=400,
                  bounds="cases x sub-grid with N=4 settings: every permutation, shuffle at constructor or sow call, "
